@@ -571,7 +571,7 @@ impl Prop for C03 {
             "norm_p / norm_frob tolerance 4*eps*(numel+4) relative".into(),
         ]
     }
-    fn stream_len(&self) -> usize {
+    fn stream_len(&self, _tier: Tier) -> usize {
         1200
     }
     fn random_cases(&self, tier: Tier) -> usize {
